@@ -40,7 +40,13 @@ fn main() {
             let kf = Known::load();
             let cfg = RunCfg { tier, seed, root: root.clone(), cases_override: arg_val(&a, "--cases").and_then(|s| s.parse().ok()), skip_sweeps: a.iter().any(|x| x == "--no-sweeps") };
             let out = runner::run(prop.as_ref(), &kf, &cfg);
-            let ev = runner::evidence_json(prop.as_ref(), &kf, &cfg, &out, serde_json::json!({}));
+            let mut extra = serde_json::json!({});
+            if out.stats.labels.keys().any(|k| k.starts_with("type:")) {
+                let all: Vec<String> = all_token_types().iter().map(|t| format!("{t:?}")).collect();
+                let unseen: Vec<&String> = all.iter().filter(|n| !out.stats.labels.contains_key(&format!("type:{n}"))).collect();
+                extra = serde_json::json!({"token_types_total": all.len(), "token_types_seen": all.len() - unseen.len(), "token_types_never_seen": unseen});
+            }
+            let ev = runner::evidence_json(prop.as_ref(), &kf, &cfg, &out, extra);
             let evp: PathBuf = arg_val(&a, "--evidence").map(PathBuf::from).unwrap_or_else(|| root.join("evidence").join(format!("{id}.json")));
             let _ = std::fs::create_dir_all(evp.parent().unwrap());
             std::fs::write(&evp, serde_json::to_string_pretty(&ev).unwrap()).expect("write evidence");
